@@ -242,7 +242,7 @@ func (tm *termer) render(v ssa.Value) *Term {
 		}
 		return &Term{Op: "const:" + v.Value.ExactString()}
 	case *ssa.Parameter:
-		if o := extractedInto(v.Parent()); o != nil {
+		if o := extractedInto(v.Parent()); o != nil && TopFunc2(v.Parent()) != curFrame {
 			// the helper is a named block of o: its parameter is what o passes
 			idx := -1
 			for i, p := range v.Parent().Params {
